@@ -1,10 +1,16 @@
 (* Harness.v: dispatch from a decoded case (function name, arguments) to the model.
    Part of the correspondence harness. *)
-From CCT Require Import Prelude Hex Num Time Formats Json Auth Signing Construct Sha256 Wire.
+From CCT Require Import Prelude Hex Num Time Formats Json Auth Signing Construct Sha256 Wire Keys.
 Open Scope N_scope.
 
 Definition unit_res (r : res unit) : res pv := x <- r ;; Ok VNone.
 Definition bool_res (b : bool) : res pv := Ok (VBool b).
+
+Definition cls_of (v : pv) : option kclass :=
+  match v with
+  | VStr s => if ustr_eqb s (U"pub") then Some KPub else if ustr_eqb s (U"priv") then Some KPriv else None
+  | _ => None
+  end.
 
 Section Run.
   Variable ed_verify : bytes -> bytes -> bytes -> bool.
@@ -43,6 +49,17 @@ Section Run.
         else if is (U"canonserialize") then (b <- canonserialize a ;; Ok (VBytes b))
         else if is (U"sha256") then match a with VBytes b => Ok (VBytes (sha256 b)) | _ => Unmodelled end
         else if is (U"wrap_as_signable") then wrap_as_signable a
+        else if is (U"public_key_of") then public_key_of ed_pub a
+        else if is (U"keyfile_roundtrip") then
+          match a with
+          | VBytes sd =>
+              files <- write_keyfiles ed_pub (VPriv sd) ;;
+              ks <- load_keyfiles files ;;
+              e1 <- key_is_equivalent_to KPriv (VPriv sd) (fst ks) ;;
+              e2 <- key_is_equivalent_to KPub (VPub (ed_pub sd)) (snd ks) ;;
+              Ok (VList [VBytes (fst files); VBytes (snd files); fst ks; snd ks; VBool e1; VBool e2])
+          | _ => Unmodelled
+          end
         else if is (U"float_view") then
           match a with
           | VFloat t => match float_view t with
@@ -79,6 +96,11 @@ Section Run.
           | _ => Unmodelled
           end
         else if is (U"sign_all_value") then sign_all_value ed_pub ed_sign a b
+        else if is (U"key_from_bytes") then match cls_of a with Some c => key_from_bytes c b | None => Unmodelled end
+        else if is (U"key_to_bytes") then match cls_of a with Some c => key_to_bytes c b | None => Unmodelled end
+        else if is (U"key_to_hex") then match cls_of a with Some c => key_to_hex c b | None => Unmodelled end
+        else if is (U"key_from_hex") then match cls_of a with Some c => key_from_hex c b | None => Unmodelled end
+        else if is (U"sign_raw") then match a, b with VBytes sd, VBytes m => Ok (VBytes (ed_sign sd m)) | _, _ => Unmodelled end
         else if is (U"pub_of_seed") then match a with VBytes sd => Ok (VBytes (ed_pub sd)) | _ => Unmodelled end
         else Unmodelled
     | [a; VList seeds1; c; VList seeds2] =>
@@ -100,7 +122,9 @@ Section Run.
         else if is (U"verify_delegation") then unit_res (verify_delegation ed_verify sha a (VList seeds1) c (VList seeds2))
         else Unmodelled
     | [a; b; c] =>
-        if is (U"verify_signature") then unit_res (verify_signature ed_verify a b c)
+        if is (U"key_is_equivalent_to") then
+          match cls_of a with Some k => (r <- key_is_equivalent_to k b c ;; Ok (VBool r)) | None => Unmodelled end
+        else if is (U"verify_signature") then unit_res (verify_signature ed_verify a b c)
         else if is (U"verify_gpg_signature") then unit_res (verify_gpg_signature ed_verify sha a b c)
         else Unmodelled
     | [a; b; c; d] =>
